@@ -4,10 +4,10 @@ From V Require Import Hist.Machine Hist.RingProofs Hist.Lemmas Hist.Chain.
 From Coq Require Import ZifyN ZifyNat ZifyBool.
 
 Ltac sp :=
-  cbn [s_cfg s_txlog s_clog s_vlog s_vsize s_aht s_committed s_calh s_inmem s_ialh s_ptls s_tlfo s_buf
+  cbn [s_cfg s_txlog s_clog s_vlog s_vsize s_aht s_committed s_calh s_inmem s_ialh s_ptls s_tlnf s_buf
        s_ext s_allowed s_whub s_pend s_wait
        upd_pend upd_vlog upd_aht upd_txlog upd_clog upd_buf upd_committed upd_inmem upd_allow upd_tl
-       tl_set_offset tl_flush fst snd] in *.
+       tl_set_offset tl_flush tl_append fst snd] in *.
 
 Definition cent (pe : pentry) : centry :=
   {| ce_off := pe_off pe; ce_size := pe_size pe; ce_alh := pe_alh pe |}.
